@@ -31,6 +31,7 @@ type allocEpoch struct {
 	placeholder bool
 	pushStep int
 	firstPop int
+	firstPrev string // predecessor announced with the first chunk
 	Prev     string // stored prev for recovered files
 	recovered bool
 	group    string
@@ -287,6 +288,7 @@ func (m *w1mon) onPop(n *SendNode, p *popObs) {
 	if first {
 		e.started = true
 		e.firstPop = s.step
+		e.firstPrev = p.Prev
 	}
 	// ---- C11: tiling
 	if s.on("C11", "C07") && e.Expect != nil {
@@ -338,6 +340,12 @@ func (m *w1mon) onPop(n *SendNode, p *popObs) {
 			}
 		case p.Prev == p.Name:
 			s.violate(prop, "prev-is-self", "%s names itself as predecessor", p.Name)
+		case !first:
+			// the predecessor is a property of the file, fixed with its first
+			// chunk: the receiver records the one it sees first and waits for it
+			if p.Prev != e.firstPrev {
+				s.violate(prop, "prev-changed-mid-file", "chunk %s[%d:+%d] announces predecessor %q, the file's first chunk announced %q", p.Name, p.Beg, p.Len, p.Prev, e.firstPrev)
+			}
 		case e.recovered:
 			if part := m.partialsAt[p.Name]; part != nil && e.Expect != nil && !(len(e.Expect) == 1 && e.Expect[0] == rng{0, e.Size} && part.Prev == "") {
 				if p.Prev != e.Prev {
